@@ -478,12 +478,20 @@ class Sim:
                     return f
         return None
 
+    def stray(self, rel):
+        """A stray directory entry invented by the plan: it must also *exist* for stat/open."""
+        d, _, b = rel.rpartition("/")
+        return b in self.plan["env"].get("extra_entries", {}).get(d, [])
+
     def sim_stat(self, path, *a, **kw):
         if isinstance(path, int) or kw.get("dir_fd") is not None:
             return self.real_stat(path, *a, **kw)
         rel = self.relproj(path)
         if rel is None or rel == ".":
             return self.real_stat(path, *a, **kw)
+        if self.stray(rel):
+            self.log("stat", file=rel, stray=True)
+            return self.real_stat(self.repo if rel.endswith(".d") else self.tool)
         i = self.touch(rel)
         f = self.missing(rel, i)
         self.log("stat", file=rel, missing=bool(f))
@@ -500,6 +508,9 @@ class Sim:
         rel = self.relproj(path)
         if rel is None or rel == ".":
             return self.real_lstat(path, *a, **kw)
+        if self.stray(rel):
+            self.log("lstat", file=rel, stray=True)
+            return self.real_lstat(self.repo if rel.endswith(".d") else self.tool)
         i = self.touch(rel)
         f = self.missing(rel, i)
         self.log("lstat", file=rel, missing=bool(f))
@@ -605,6 +616,11 @@ class Sim:
             self.repo_writes.append(rel)
             self.log("open_for_write", file=rel, mode=mode)
             raise _oserror("EROFS", os.fspath(file))
+        if self.stray(rel):
+            self.log("open", file=rel, stray=True)
+            if rel.endswith(".d"):
+                raise OSError(_errno.EISDIR, os.strerror(_errno.EISDIR), os.fspath(file))
+            return io.BytesIO(b"") if "b" in mode else io.StringIO("")
         first = rel not in self.opened
         if first:
             self.opened.append(rel)
@@ -710,7 +726,8 @@ class Sim:
         class SimDateTime(saved["datetime"]):
             @classmethod
             def now(cls, tz=None):
-                return sim.now()
+                t = sim.now()
+                return t.replace(tzinfo=tz) if tz is not None else t
 
             @classmethod
             def utcnow(cls):
@@ -764,7 +781,8 @@ class Sim:
             _subprocess_mod.Popen = FakePopen
             _datetime_mod.datetime = SimDateTime
             _datetime_mod.date = SimDate
-            _time_mod.time = lambda: sim.now().timestamp()
+            epoch = saved["datetime"](1970, 1, 1)
+            _time_mod.time = lambda: (sim.now() - epoch).total_seconds()
             sys.settrace(self.tracer)
             try:
                 runpy.run_path(self.tool_filename, run_name="__main__")
